@@ -22,6 +22,9 @@ impl Prop for C13 {
     fn id(&self) -> &'static str {
         "C13"
     }
+    fn supplement(&self, tier: Tier, seed: u64) -> (Vec<crate::world::Violation>, Value) {
+        super::common::msim_supplement("C13", "adaptive", tier, seed)
+    }
     fn engine(&self) -> &'static str {
         "asim + tsim (shuttle)"
     }
